@@ -80,11 +80,12 @@ package syntax
 
 // The ASCII bitmap, when present, caches exactly the general lookup for runes below 128.
 //@ spec func BitmapHas(bm *asciiBitmap, ch rune) bool = band(bm.bits[ch/64], pow2(ch % 64)) != 0
-//@ spec func AsciiAgrees(c CharSet) bool = c.ascii != nil ==> forall a rune :: 0 <= a && a < 128 ==> BitmapHas(c.ascii, a) == Member(c, a)
+//@ spec func AsciiAgrees(c CharSet) bool = c.ascii != nil ==> forall a rune {mark(a)} :: 0 <= a && a < 128 ==> BitmapHas(c.ascii, a) == Member(c, a)
 
 //@ func (c CharSet) CharIn(ch rune) (res bool)
 //@   props C16
 //@   requires SetOKv(c)
+//@   requires[trigger] mark(ch)
 //@   ensures res == Member(c, ch)
 
 // prepareASCIIBitmap builds the cache the fast path of CharIn relies on: afterwards the bitmap agrees with the
